@@ -720,7 +720,8 @@ class Gen:
             if form == 'pre_until':
                 return [{'k': 'do', 'pre': ['until', t], 'post': None, 'body': []}]
             return [{'k': 'while', 'cond': f, 'body': []}]
-        if self.p['devfuncs'] and self.p['strings'] and sc.kind == 'main' and r.random() < 0.12:
+        if self.p['devfuncs'] and self.p['strings'] and sc.kind == 'main' \
+                and r.random() < self.p.get('waitkey', 0.12):
             # the wait-for-a-key idiom: poll INKEY$ until it answers (or a
             # few polls have gone by)
             c = self.new_scalar(sc, '%')
